@@ -91,6 +91,14 @@ def run(ctx, optional, brackets, pid, n_quick=400, n_thorough=5000):
         for w in c.get('const_wrong', []):
             viol.append({'signature': 'oracle:instances-of-a-class-share-arguments', 'case': {'items': c['items']}, 'observed': w,
                          'what': f'{pid}: stack {i}: the layer {w["item"]} computes {w["got"]} instead of {w["want"]}: it took the constructor argument of an earlier instance'})
+        if c.get('checkids_differs'):
+            viol.append({'signature': 'oracle:checkids-changes-what-the-pipeline-lists', 'case': {'items': c['items']}, 'observed': c['checkids_differs'],
+                         'what': f'{pid}: stack {i}: the pipeline and the same pipeline >> CheckIds() differ in the fields they list or in being usable at all: {c["checkids_differs"]}'})
+        for b in c.get('shared_cache_layer', [])[:1]:
+            viol.append({'signature': 'oracle:shared-cache-layer-couples-its-uses', 'case': {'scenario': 'ONE CacheToRam(size=1) object connected to two sources with fields a, b', 'step': b},
+                         'observed': b,
+                         'what': f'{pid}: one CacheToRam(size=1) object over two fields and in two pipelines: at step {b.get("step")} {b} (every field of every connection '
+                                 f'has a table of its own: an entry is evicted only by another key of the same field of the same pipeline)'})
         if not c.get('operands_unchanged', True):
             viol.append({'signature': 'oracle:operand-changed', 'case': {'items': c['items']},
                          'what': f'{pid}: stack {i}: composing (>> and Chain) changed what an operand layer lists, serves, returns or treats as a property'})
